@@ -23,8 +23,8 @@ Definition q_hash_code (q : quartet) : N :=
   let i3 := to_int (qt3 q) in let i4 := to_int (qt4 q) in
   (* if i2 < i1 { i1, i2 = i2, i1 } *)
   let '(i1, i2) := cswap_lt i1 i2 in
-  (* if i3 < i4 { i3, i4 = i4, i3 } *)
-  let '(i4, i3) := cswap_lt i4 i3 in
+  (* if i4 < i3 { i3, i4 = i4, i3 } *)
+  let '(i3, i4) := cswap_lt i3 i4 in
   (* if i3 < i1 { i1, i3 = i3, i1 } *)
   let '(i1, i3) := cswap_lt i1 i3 in
   (* if i4 < i2 { i2, i4 = i4, i2 } *)
